@@ -32,8 +32,8 @@ REQUIRED_REFS = {"tie_prev", "tie_next", "slur_starts", "slur_stops", "tuplet_st
 
 
 def run(ctx):
-    from ..rules import generic as _G11
-    _G11.rule_F11(ctx, ['partitura.score'], 'C09')
+    from ..rules import extra as _X3
+    _X3.rule_jump_recorded_after_reset(ctx)
     prog = ctx.prog
     OW.rule_F1(ctx, ENTRIES, "unfolding entry points")
     cv = prog.func(f"{S}:ScoreVariant.create_variant_part", "EXCL")
